@@ -4,20 +4,38 @@ import PV.Expr.Syntax
   (`PV.C11.parse_unparse_partial`): the operator core of the expression language.
 
     Name, every constant (numbers, strings, bytes, `None`, `True`, `False`, `...`), Attribute,
-    BoolOp (n ≥ 2 operands), UnaryOp (all four), BinOp (all thirteen), Compare (n ≥ 1 comparisons),
+    List, Tuple and Set displays (plain elements), Dict displays (`key: value` entries), Call with positional arguments, Subscript with a
+    single plain index,
+    Await, Yield, YieldFrom, BoolOp (n ≥ 2 operands), UnaryOp (all four), BinOp (all thirteen), Compare (n ≥ 1 comparisons),
     IfExp — nested arbitrarily.
 
-  Everything else (lambda, displays, comprehensions, calls, subscript / slices, starred,
-  named expressions, await / yield, f-string literals) is outside `InFragment`;
+  Everything else (lambda, `**` in dict displays, comprehensions, keyword / starred arguments, slices and
+  tuple indices, starred,
+  named expressions, f-string literals) is outside `InFragment`;
   for those the statement `parse_unparse_full` is only checked by correspondence.
 -/
 namespace PV.Expr
+
+/-- an index expression that is not a bare (non-empty) tuple: `x[i]`, not `x[i, j]` -/
+def plainIndex : Expr → Bool
+  | .tuple (_ :: _) => false
+  | _ => true
 
 mutual
 def inFrag : Expr → Bool
   | .name _ => true
   | .const _ => true
   | .attribute v _ => inFrag v
+  | .list es => inFragList es
+  | .tuple es => inFragList es
+  | .set es => !es.isEmpty && inFragList es
+  | .call f as [] => inFrag f && inFragList as
+  | .subscript v s => inFrag v && inFrag s && plainIndex s
+  | .await v => inFrag v
+  | .yield none => true
+  | .yield (some v) => inFrag v
+  | .yieldFrom v => inFrag v
+  | .dict items => inFragItems items
   | .boolOp _ vs => decide (2 ≤ vs.length) && inFragList vs
   | .unaryOp _ e => inFrag e
   | .binOp l _ r => inFrag l && inFrag r
@@ -27,6 +45,11 @@ def inFrag : Expr → Bool
 def inFragList : List Expr → Bool
   | [] => true
   | e :: es => inFrag e && inFragList es
+/-- `key: value` entries only (no `**` unpacking) -/
+def inFragItems : List DictItem → Bool
+  | [] => true
+  | .mk (some k) v :: is => inFrag k && inFrag v && inFragItems is
+  | .mk none _ :: _ => false
 end
 
 /-- `e` lies in the operator core (and satisfies the grammar's side conditions there) -/
